@@ -56,7 +56,9 @@ import (
 //   crash <a> <p> <k>    -> idx=<a> st=<..> res=<..> pre=<notified before the crash>
 //                           restart=<ok|err-…|panic-…> la=<h> agree=<t|f> re=<notified at restart> cont=<ok|…>
 //      blocks 1..a are accepted by consensus (index update + enqueue); processing of block k
-//      stops at point p: 2 = before its execution results are written, 3 = after the results
+//      stops at point p: 1 = (k = a) consensus is stopped INSIDE the chain-index write of block a
+//      (the batch is never written) while the async accepter is left running: blocks 1..a-1 are
+//      fully processed and nothing of block a may reach the state; 2 = before its execution results are written, 3 = after the results
 //      write and before the state commit, 4 = after the state commit and before the first
 //      accepted-subscriber (A) is notified, 5 = after A and before the second subscriber (B),
 //      6 = after both notifications (before block k+1 is touched). pre/re are A's logs,
@@ -171,6 +173,40 @@ func (d *c18StallDB) Put(k, v []byte) error {
 		select {}
 	}
 	return err
+}
+
+// c18StallIndexDB wraps the chain index database: the batch that sets the last accepted height
+// to `height` is never written (Write blocks forever after signalling).
+type c18StallIndexDB struct {
+	database.Database
+	height  uint64
+	reached chan struct{}
+}
+
+type c18StallBatch struct {
+	database.Batch
+	db     *c18StallIndexDB
+	target bool
+}
+
+func (d *c18StallIndexDB) NewBatch() database.Batch {
+	return &c18StallBatch{Batch: d.Database.NewBatch(), db: d}
+}
+
+func (b *c18StallBatch) Put(k, v []byte) error {
+	// chainindex: lastAcceptedKey is the only 1-byte key; its value is the big-endian height
+	if len(k) == 1 && len(v) == 8 && binary.BigEndian.Uint64(v) == b.db.height {
+		b.target = true
+	}
+	return b.Batch.Put(k, v)
+}
+
+func (b *c18StallBatch) Write() error {
+	if b.target {
+		close(b.db.reached)
+		select {}
+	}
+	return b.Batch.Write()
 }
 
 type c18Report struct {
@@ -399,6 +435,11 @@ func TestVerifC18Child(t *testing.T) {
 		if p == 2 || p == 3 {
 			n.vm.executionResultsDB = &c18StallDB{Database: n.vm.executionResultsDB, point: p, height: uint64(k), reached: reached}
 		}
+		if p == 1 {
+			n.vm.chainStore.VerifWrapDB(func(db database.Database) database.Database {
+				return &c18StallIndexDB{Database: db, height: uint64(a), reached: reached}
+			})
+		}
 		var blks []*c18Blk
 		for i := 0; i < a; i++ {
 			blk, err := n.parseVerify(ctx, blocks[i])
@@ -407,16 +448,49 @@ func TestVerifC18Child(t *testing.T) {
 			}
 			blks = append(blks, blk)
 		}
-		for _, blk := range blks {
-			if err := blk.Accept(ctx); err != nil {
-				t.Fatal(err)
+		// the consensus thread: it may block for good (inside the stalled index write, or on the
+		// full accepted queue), so it runs beside the watcher below
+		acceptErr := make(chan error, 1)
+		go func() {
+			for _, blk := range blks {
+				if err := blk.Accept(ctx); err != nil {
+					acceptErr <- err
+					return
+				}
 			}
-		}
+		}()
 		rep := c18Report{Outcome: "stalled"}
 		select {
 		case <-reached:
+		case err := <-acceptErr:
+			t.Fatal(err)
 		case <-time.After(30 * time.Second):
 			rep.Outcome = "nostall"
+		}
+		// wait until everything that can reach the disk has reached it
+		wantIdx, wantSt := uint64(a), uint64(0)
+		if p == 1 {
+			wantIdx, wantSt = uint64(a-1), uint64(a-1)
+		}
+		deadline := time.Now().Add(30 * time.Second)
+		for rep.Outcome == "stalled" {
+			idx, st, _ := n.markers()
+			if idx >= wantIdx && st >= wantSt {
+				break
+			}
+			if time.Now().After(deadline) {
+				rep.Outcome = "nostall"
+			}
+			time.Sleep(5 * time.Millisecond)
+		}
+		if p == 1 && rep.Outcome == "stalled" {
+			// the accepter is idle now unless block a was handed to it before its index write
+			// finished; give it the chance to run ahead of the index
+			for end := time.Now().Add(1500 * time.Millisecond); time.Now().Before(end); time.Sleep(10 * time.Millisecond) {
+				if _, st, _ := n.markers(); st >= uint64(a) {
+					break
+				}
+			}
 		}
 		mu.Lock()
 		rep.Notified = append([]uint64{}, notified...)
@@ -564,7 +638,7 @@ func TestVerifC18(t *testing.T) {
 			a, e1 := strconv.Atoi(f[1])
 			p, e2 := strconv.Atoi(f[2])
 			k, e3 := strconv.Atoi(f[3])
-			if e1 != nil || e2 != nil || e3 != nil || ref == nil || k < 1 || k > a || a > nref || p < 2 || p > 6 || a-k > 16 {
+			if e1 != nil || e2 != nil || e3 != nil || ref == nil || k < 1 || k > a || a > nref || p < 1 || p > 6 || a-k > 17 || (p == 1 && k != a) {
 				r.Emit(l, "bad-op")
 				continue
 			}
@@ -606,6 +680,9 @@ func TestVerifC18(t *testing.T) {
 				switch {
 				case re.Outcome == "err-statedb-compact":
 					key = "restart-fails-after-any-unclean-shutdown-statedb-compact"
+				case ahead < 0:
+					// only possible if a block reaches the accepter before its index write completed
+					key = "restart-fails-state-ahead-of-index"
 				case re.Outcome == "panic-nil" && ahead == 1:
 					key = "restart-fails-index-ahead-of-state-by-1"
 				case re.Outcome == "err-index-ahead" && ahead >= 2:
@@ -621,8 +698,12 @@ func TestVerifC18(t *testing.T) {
 				r.Violation(key, "%s: restart %s (%s) with index height %d, state height %d, results height %d", l, re.Outcome, c18Short(re.Err), pre.Idx, pre.St, pre.Res)
 				continue
 			}
-			if int(re.LA) != a || agree != "true" {
-				r.Violation("restart-disagrees", "%s: restarted node last accepted %d id=%s root=%s results=%s; never-crashed node at height %d: %+v", l, re.LA, re.LAID, re.Root, re.Results, a, ref.PerH[a])
+			wantLA := a
+			if p == 1 {
+				wantLA = a - 1 // Accept of block a never got past its index write
+			}
+			if int(re.LA) != wantLA || agree != "true" {
+				r.Violation("restart-disagrees", "%s: restarted node last accepted %d id=%s root=%s results=%s; never-crashed node at height %d: %+v", l, re.LA, re.LAID, re.Root, re.Results, wantLA, ref.PerH[wantLA])
 			}
 			if re.Cont != "ok" || int(re.FinalLA) != nref || re.FinalID != ref.PerH[nref].ID || re.FinalRt != ref.PerH[nref].Root {
 				r.Violation("restart-cannot-continue", "%s: after the restart the rest of the chain gives cont=%s final=%d/%s (%s)", l, re.Cont, re.FinalLA, re.FinalRt, c18Short(re.Err))
@@ -641,7 +722,7 @@ func TestVerifC18(t *testing.T) {
 					}
 				}
 				var missing []uint64
-				for h := uint64(1); h <= uint64(a); h++ {
+				for h := uint64(1); h <= uint64(wantLA); h++ {
 					if !seen[h] {
 						missing = append(missing, h)
 					}
@@ -681,7 +762,7 @@ func c18Short(s string) string {
 func c18Generate(r *verifh.Run) []string {
 	var out []string
 	add := func(f string, a ...any) { out = append(out, fmt.Sprintf(f, a...)) }
-	n := r.N(3, 18)
+	n := 18 // acceptedQueueSize + 2: the deepest backlog consensus can build up
 	add("chain %d", n)
 	// corpus: accept, accept, crash before anything is processed (index 2 ahead);
 	// one block accepted, crash at each of the points (index 1 ahead / level)
@@ -692,16 +773,24 @@ func c18Generate(r *verifh.Run) []string {
 	add("crash 2 4 1") // committed, not notified, index ahead: the notification of block 1 is lost
 	add("crash 2 5 1") // the same between subscriber A and subscriber B
 	add("crash 3 3 2") // results one ahead of the state, index two ahead
+	add("crash 3 1 3") // consensus stopped inside the index write of block 3, accepter running
+	// completely full queue: block 1 in flight, 16 queued, the 18th Accept blocked on the send
+	// after its index write: 18 accepted blocks outstanding
+	add("crash 18 2 1")
 	add("crash 0 2 0")
 	add("crash 2 9 1")
 	add("frob")
 	if r.Thorough() {
 		add("crash %d 2 1", n-1) // 16 blocks queued behind the stalled one (acceptedQueueSize = 16)
 		add("crash %d 4 2", n)
+		add("crash %d 3 1", n)
+		for a := 1; a <= 6; a++ {
+			add("crash %d 1 %d", a, a)
+		}
 		for a := 1; a <= n; a++ {
 			for k := 1; k <= a; k++ {
 				for p := 2; p <= 6; p++ {
-					if a-k <= 16 && (a <= 4 || r.RNG.Chance(25)) {
+					if a-k <= 17 && (a <= 4 || r.RNG.Chance(8)) {
 						add("crash %d %d %d", a, p, k)
 					}
 				}
